@@ -245,7 +245,7 @@ inline bool check_structure(Ctx &cx, const SuperMatrix *L, const SuperMatrix *U,
     for (int j = 0; j < k; ++j) VF_REQUIREB(cx, xusub[j] <= xusub[j + 1], O, "U colptr decreasing at %d", j);
     VF_REQUIREB(cx, region_ok(Us->rowind, sizeof(int_t) * (size_t)xusub[k]), O, "U rowind not addressable for %lld entries", (long long)xusub[k]);
     VF_REQUIREB(cx, region_ok(Us->nzval, sizeof(T) * (size_t)xusub[k]), O, "U nzval not addressable for %lld values", (long long)xusub[k]);
-    std::vector<int> mark(k, -1);
+    std::vector<int> mark(k, -1); std::vector<int_t> firstpos(k, 0);
     const T *uval = (const T *)Us->nzval;
     for (int j = 0; j < k; ++j) {
         int f = xsup[supno[j]];
@@ -254,7 +254,11 @@ inline bool check_structure(Ctx &cx, const SuperMatrix *L, const SuperMatrix *U,
             VF_REQUIREB(cx, r >= 0 && r < f, O, "U column %d holds row %lld, not above its supernode (first column %d)", j, (long long)r, f);
             if (mark[r] == j) {
                 if (!ilu) VF_FAILB(cx, O, "U column %d repeats row %lld", j, (long long)r);
-            }
+                // incomplete LU: a row index may be repeated only by an explicit zero
+                bool z_here = uval[p] == T(0), z_first = uval[firstpos[r]] == T(0);
+                if (!z_here && !z_first) VF_FAILB(cx, O, "U column %d of the incomplete factorization repeats row %lld with two nonzero values", j, (long long)r);
+                if (z_first) firstpos[r] = p;
+            } else firstpos[r] = p;
             mark[r] = j;
         }
         if (xusub[j + 1] > xusub[j]) fs.u_nonempty = true;
